@@ -51,8 +51,30 @@ fn random_vanity_spec(rng: &mut Rng, force_e2: bool) -> VanitySpec {
         1 => rng.range(1, 4) as usize,
         _ => rng.range(5, 12) as usize,
     };
-    let fail_at = if rng.chance(2, 5) { Some(rng.usize_below(plant_at + 3)) } else { None };
+    let fail_at = if rng.chance(2, 5) {
+        Some(rng.usize_below(plant_at + 3))
+    } else {
+        None
+    };
+    // one search in 60 is long: a plant 50..70 draws deep with a non-matching aftermath longer than
+    // any plausible batch, so candidate pipelines and pools are driven past their first refill
+    let deep = rng.chance(1, 60);
+    let plant_at = if deep {
+        rng.range(50, 70) as usize
+    } else if rng.chance(1, 12) {
+        rng.range(13, 24) as usize
+    } else {
+        plant_at
+    };
+    let after_plant = if deep {
+        rng.range(64, 80) as usize
+    } else {
+        [0usize, 0, 0, 1, 3, 8][rng.usize_below(6)]
+    };
+    let fail_at = if deep { None } else { fail_at };
     VanitySpec {
+        after_plant,
+        fail_burst: [1usize, 1, 1, 2, 3, 4][rng.usize_below(6)],
         length: LENGTHS[rng.weighted(&[4, 1, 1, 1, 2])],
         digits,
         case_mode: rng.below(3),
@@ -82,9 +104,18 @@ fn c12_response(k: usize, len: usize, rng: &mut Rng) -> EntResp {
     match k {
         0..=7 => EntResp::ok(&pattern(k, len)),
         8..=15 => EntResp::ok(&rng.bytes(len)),
-        16 => EntResp::Fail { errno: 5, partial: String::new() },
-        17 => EntResp::Fail { errno: 38, partial: String::new() },
-        _ => EntResp::Fail { errno: 5, partial: hex::encode(rng.bytes(len)) },
+        16 => EntResp::Fail {
+            errno: 5,
+            partial: String::new(),
+        },
+        17 => EntResp::Fail {
+            errno: 38,
+            partial: String::new(),
+        },
+        _ => EntResp::Fail {
+            errno: 5,
+            partial: hex::encode(rng.bytes(len)),
+        },
     }
 }
 
@@ -124,6 +155,8 @@ impl Plan for C12Plan {
             // r == 0: no failure; r in 1..=p+1: request r-1 fails
             let mut rng = fixed_rng(0xC12B, idx);
             let spec = VanitySpec {
+                after_plant: 0,
+                fail_burst: 1,
                 length,
                 digits: 3,
                 case_mode: 0,
@@ -152,7 +185,11 @@ impl Plan for C12Plan {
             }
             1 => {
                 // plain generation through E2 (cross-validated on the real binary)
-                let length = if rng.chance(3, 4) { LENGTHS[rng.usize_below(5)] } else { rng.range(0, 40) as usize };
+                let length = if rng.chance(3, 4) {
+                    LENGTHS[rng.usize_below(5)]
+                } else {
+                    rng.range(0, 40) as usize
+                };
                 let ent_len = rm::entropy_len(length).unwrap_or(16);
                 let resp = c12_response(rng.usize_below(19), ent_len, &mut rng);
                 AnyCase::New(gen_plain(&mut rng, length, resp, true))
@@ -211,7 +248,8 @@ pub struct C18Plan {
 }
 
 const DIGITS22: [&str; 22] = [
-    "0", "1", "2", "3", "4", "5", "6", "7", "8", "9", "a", "b", "c", "d", "e", "f", "A", "B", "C", "D", "E", "F",
+    "0", "1", "2", "3", "4", "5", "6", "7", "8", "9", "a", "b", "c", "d", "e", "f", "A", "B", "C",
+    "D", "E", "F",
 ];
 const C18_THREADS: [usize; 4] = [0, 1, 2, 16];
 const C18_A: usize = 22 * 4;
@@ -229,7 +267,6 @@ const NEGATIVE: [(&str, bool); 26] = [
     ("0x0x1", false),
     ("0x.1", false),
     ("0x1e1", true), // valid hex, both selectors
-
     // (prefix, also give both selectors)
     ("0xg", false),
     ("0x1g", false),
@@ -237,13 +274,13 @@ const NEGATIVE: [(&str, bool); 26] = [
     ("0x12z", false),
     ("0x 1", false),
     ("0x-1", false),
-    ("0x１", false),  // full-width digit
-    ("0xа", false),   // Cyrillic a
+    ("0x１", false), // full-width digit
+    ("0xа", false),  // Cyrillic a
     ("0x0x", false),
-    ("ab", false),     // no 0x: open
-    ("0Xab", false),   // 0X: open
-    ("", false),       // empty: open
-    ("0x", true),      // both selectors
+    ("ab", false),   // no 0x: open
+    ("0Xab", false), // 0X: open
+    ("", false),     // empty: open
+    ("0x", true),    // both selectors
     ("0xa", true),
 ];
 const C18_B: usize = NEGATIVE.len();
@@ -262,9 +299,15 @@ impl Plan for C18Plan {
             let workers = C18_THREADS[idx % 4];
             let mut rng = fixed_rng(0xC18A, idx);
             let spec = VanitySpec {
+                after_plant: 0,
+                fail_burst: 1,
                 length: 12,
                 digits: 1,
-                case_mode: if d.bytes().all(|b| b.is_ascii_uppercase()) { 1 } else { 0 },
+                case_mode: if d.bytes().all(|b| b.is_ascii_uppercase()) {
+                    1
+                } else {
+                    0
+                },
                 first_digit: Some(d.to_ascii_lowercase().as_bytes()[0]),
                 workers,
                 plant_at: 1 + idx % 3,
@@ -312,8 +355,13 @@ impl Plan for C18Plan {
         if rng.chance(1, 8) {
             // a prefix that is not hexadecimal must be refused: one foreign character put
             // into an otherwise valid prefix at a seeded position
-            let digits: String = (0..rng.range(0, 5)).map(|_| *rng.pick(&['0', '1', '7', '9', 'a', 'c', 'f', 'A', 'E'])).collect();
-            let junk = ["+", "-", "_", " ", "\t", "x", "X", "g", "G", "h", "o", "O", "l", ".", ",", ":", "#", "$", "é", "１", "а", "\u{200b}", "0x", "%41"];
+            let digits: String = (0..rng.range(0, 5))
+                .map(|_| *rng.pick(&['0', '1', '7', '9', 'a', 'c', 'f', 'A', 'E']))
+                .collect();
+            let junk = [
+                "+", "-", "_", " ", "\t", "x", "X", "g", "G", "h", "o", "O", "l", ".", ",", ":",
+                "#", "$", "é", "１", "а", "\u{200b}", "0x", "%41",
+            ];
             let j = *rng.pick(&junk);
             let at = rng.usize_below(digits.len() + 1);
             let mut d = digits.clone();
@@ -358,7 +406,7 @@ impl Plan for C18Plan {
         vec![
             "non-planted entropy values are random and may match short prefixes by chance; the oracle evaluates the reference address of whatever was printed, it never assumes they do not match".into(),
             "spellings the statement leaves open (no 0x, 0X…, empty) are accepted either way".into(),
-            "bounded liveness: once every entropy response is a match, the command exits within 64*(workers+2) scheduling steps and 2*(workers+2) further entropy requests under any schedule".into(),
+            "bounded liveness: once every entropy response is a match, the command exits within 384+96*workers further entropy requests (and 16 scheduling steps per request) under any schedule — far above the one request per searcher the present code needs, so that batching or polling implementations are not constrained".into(),
         ]
     }
     fn components(&self) -> Value {
@@ -399,10 +447,17 @@ pub fn c17_new_enumerated(idx: usize) -> NewCase {
     };
     match t {
         0 => {}
-        1 => c.entropy[0] = EntResp::Fail { errno: 5, partial: String::new() },
+        1 => {
+            c.entropy[0] = EntResp::Fail {
+                errno: 5,
+                partial: String::new(),
+            }
+        }
         2 => {
             // nothing matches until the failure: one-digit prefix the planned values do not have
             let spec = VanitySpec {
+                after_plant: 0,
+                fail_burst: 1,
                 length: 12,
                 digits: 2,
                 case_mode: 0,
@@ -431,6 +486,8 @@ pub fn c17_new_enumerated(idx: usize) -> NewCase {
     if t == 10 {
         // an upper-case prefix is valid: plant a match for it
         let spec = VanitySpec {
+            after_plant: 0,
+            fail_burst: 1,
             length: 12,
             digits: 2,
             case_mode: 1,
@@ -454,13 +511,53 @@ pub fn c17_new_enumerated(idx: usize) -> NewCase {
 }
 
 const JUNK_NUM: [&str; 16] = [
-    "0", "1", "11", "12", "13", "24", "25", "2147483647", "2147483648", "4294967295", "4294967296", "18446744073709551615",
-    "18446744073709551616", "-1", "1e3", "",
+    "0",
+    "1",
+    "11",
+    "12",
+    "13",
+    "24",
+    "25",
+    "2147483647",
+    "2147483648",
+    "4294967295",
+    "4294967296",
+    "18446744073709551615",
+    "18446744073709551616",
+    "-1",
+    "1e3",
+    "",
 ];
 const JUNK_PATH: [&str; 14] = [
-    "m/0", "m/0'", "m/44'/60'/0'/0/0", "m", "m/", "", "n/0", "m//0", "m/0/", "m/4294967295", "m/4294967296", "m/2147483648'", "m/-1", "m/0x1",
+    "m/0",
+    "m/0'",
+    "m/44'/60'/0'/0/0",
+    "m",
+    "m/",
+    "",
+    "n/0",
+    "m//0",
+    "m/0/",
+    "m/4294967295",
+    "m/4294967296",
+    "m/2147483648'",
+    "m/-1",
+    "m/0x1",
 ];
-const JUNK_PREFIX: [&str; 12] = ["0x", "0x0", "0xA", "0xaB", "0xABCDEF", "0xg", "0x0g", "ab", "0X1", "", "0x00000000000000000000000000000000000000000", "0xé"];
+const JUNK_PREFIX: [&str; 12] = [
+    "0x",
+    "0x0",
+    "0xA",
+    "0xaB",
+    "0xABCDEF",
+    "0xg",
+    "0x0g",
+    "ab",
+    "0X1",
+    "",
+    "0x00000000000000000000000000000000000000000",
+    "0xé",
+];
 
 pub fn c17_new_seeded(rng: &mut Rng) -> NewCase {
     let workers = WORKER_CHOICES[rng.weighted(&WORKER_WEIGHTS)];
@@ -473,10 +570,18 @@ pub fn c17_new_seeded(rng: &mut Rng) -> NewCase {
         ..NewCase::default()
     };
     if rng.chance(5, 6) {
-        c.prefix = Some(if rng.chance(2, 3) { "0x".into() } else { rng.pick(&JUNK_PREFIX).to_string() });
+        c.prefix = Some(if rng.chance(2, 3) {
+            "0x".into()
+        } else {
+            rng.pick(&JUNK_PREFIX).to_string()
+        });
     }
     if rng.chance(1, 3) {
-        c.length = Some(if rng.coin() { rng.range(0, 40).to_string() } else { rng.pick(&JUNK_NUM).to_string() });
+        c.length = Some(if rng.coin() {
+            rng.range(0, 40).to_string()
+        } else {
+            rng.pick(&JUNK_NUM).to_string()
+        });
     }
     if rng.chance(1, 2) {
         c.account_index = Some(rng.pick(&JUNK_NUM).to_string());
@@ -486,7 +591,10 @@ pub fn c17_new_seeded(rng: &mut Rng) -> NewCase {
     }
     if rng.chance(1, 8) {
         // C17 bounds worker counts to 0..=64: junk here is either small or unparsable
-        c.threads = Some(rng.pick(&["0", "1", "2", "64", "-1", "1e3", "", "18446744073709551616"]).to_string());
+        c.threads = Some(
+            rng.pick(&["0", "1", "2", "64", "-1", "1e3", "", "18446744073709551616"])
+                .to_string(),
+        );
     }
     if rng.chance(1, 6) {
         c.password = gen_password(rng);
@@ -495,11 +603,19 @@ pub fn c17_new_seeded(rng: &mut Rng) -> NewCase {
         c.language = Some(["english", "klingon", ""][rng.usize_below(3)].into());
     }
     // entropy plan: a few values, possibly a failure
-    let ent_len = c.length.as_ref().and_then(|l| l.parse::<usize>().ok()).and_then(rm::entropy_len).unwrap_or(16);
+    let ent_len = c
+        .length
+        .as_ref()
+        .and_then(|l| l.parse::<usize>().ok())
+        .and_then(rm::entropy_len)
+        .unwrap_or(16);
     c.tail = Some(EntResp::ok(&rng.bytes(ent_len)));
     for _ in 0..rng.range(0, 4) {
         if rng.chance(1, 5) {
-            c.entropy.push(EntResp::Fail { errno: 5, partial: String::new() });
+            c.entropy.push(EntResp::Fail {
+                errno: 5,
+                partial: String::new(),
+            });
         } else {
             c.entropy.push(EntResp::ok(&rng.bytes(ent_len)));
         }
@@ -510,7 +626,10 @@ pub fn c17_new_seeded(rng: &mut Rng) -> NewCase {
     if let PrefixClass::Hex(d) = classify_prefix(&c.prefix) {
         if !d.is_empty() {
             let sel = classify_selector(&c.account_index, &c.hd_path);
-            let ok = match (&sel, rm::entropy_len(c.length.as_ref().and_then(|l| l.parse().ok()).unwrap_or(12))) {
+            let ok = match (
+                &sel,
+                rm::entropy_len(c.length.as_ref().and_then(|l| l.parse().ok()).unwrap_or(12)),
+            ) {
                 (Selector::Path(p), Some(el)) if d.len() <= 2 => {
                     let pw = c.password.clone().unwrap_or_default();
                     // find a tail that matches
@@ -543,8 +662,18 @@ pub fn c17_new_seeded(rng: &mut Rng) -> NewCase {
         c.prefix = Some("0x".into());
     }
     c.e2 = Some(e2_params(rng, w, c.entropy.len()));
-    c.e3 = (2..=16).contains(&w) && c.threads.as_ref().and_then(|t| t.parse::<usize>().ok()).is_some() && rng.chance(1, 5);
-    c.cross_e1 = c.prefix.is_none() || c.threads.as_ref().and_then(|t| t.parse::<usize>().ok()).map(|t| t <= 1).unwrap_or(true);
+    c.e3 = (2..=16).contains(&w)
+        && c.threads
+            .as_ref()
+            .and_then(|t| t.parse::<usize>().ok())
+            .is_some()
+        && rng.chance(1, 5);
+    c.cross_e1 = c.prefix.is_none()
+        || c.threads
+            .as_ref()
+            .and_then(|t| t.parse::<usize>().ok())
+            .map(|t| t <= 1)
+            .unwrap_or(true);
     if !c.cross_e1 {
         c.wplan.clear();
     } else {
